@@ -3,12 +3,13 @@ import numpy as np
 
 from kappadata.datasets.kd_subset import KDSubset
 
+from kappadata.utils.class_counts import get_num_classes
 from kappadata.utils.global_rng import GlobalRng
 from kappadata.utils.getall_as_tensor import getall_as_tensor
 
 class IntraClassShuffleWrapper(KDSubset):
     def __init__(self, dataset, seed=None):
-        num_classes = dataset.getdim_class()
+        num_classes = get_num_classes(dataset)
         classes = getall_as_tensor(dataset)
         rng = GlobalRng if seed is None else np.random.default_rng(seed=seed)
         # create permutation per class
